@@ -79,6 +79,20 @@ static bool excepted(const std::map<std::string, std::string>& ex, const std::st
   }
   return false;
 }
+// kind "obs-field:<name>": the field |<name>=...| of the recorded observation was computed by a query function that was itself
+// repaired since; it is removed from both sides and everything else is still compared
+static std::string strip_excepted_fields(const std::map<std::string, std::string>& ex, const std::string& label, std::string obs) {
+  for (std::map<std::string, std::string>::const_iterator i = ex.begin(); i != ex.end(); ++i) {
+    size_t a = i->first.find('\t'), b = i->first.find('\t', a + 1);
+    std::string pat = i->first.substr(0, a), k = i->first.substr(a + 1, b - a - 1);
+    if (k.compare(0, 10, "obs-field:") != 0 || !std::regex_match(label, std::regex(pat))) continue;
+    const std::string key = "|" + k.substr(10) + "=";
+    size_t p = obs.find(key); if (p == std::string::npos) continue;
+    size_t e = obs.find('|', p + 1);
+    obs.erase(p, e == std::string::npos ? std::string::npos : e - p);
+  }
+  return obs;
+}
 static void emit_golden(const Family& f, bool quick) {
   std::ofstream out((golden_dir() + "/" + fname(f.name) + ".txt").c_str());
   size_t n = 0;
@@ -101,9 +115,9 @@ static void golden(const Family& f, Report& rep, const Config& cfg) {
     if (!journal(sc, g[i].label)) continue;
     Ctx c(rep, sc, g[i].label); Bytes b = unhex(g[i].hex); int a0 = asan_errors();
     const bool obs_ok = !excepted(ex, g[i].label, "obs");
-    try { Sched s(0, 11); ObjP o = f.from_bytes(b.data(), b.size()); std::string ob = o->obs(); if (obs_ok) c.ok("golden-image-readable-bytes", ob == g[i].obs, "baseline image now reads as " + ob.substr(0, 300) + " VS recorded " + g[i].obs.substr(0, 300)); }
+    try { Sched s(0, 11); ObjP o = f.from_bytes(b.data(), b.size()); std::string ob = o->obs(); if (obs_ok) c.ok("golden-image-readable-bytes", strip_excepted_fields(ex, g[i].label, ob) == strip_excepted_fields(ex, g[i].label, g[i].obs), "baseline image now reads as " + ob.substr(0, 300) + " VS recorded " + g[i].obs.substr(0, 300)); }
     catch (const std::exception& e) { c.fail("golden-image-readable-bytes", std::string("baseline image rejected: ") + e.what()); }
-    try { Sched s(0, 11); std::istringstream is(std::string(b.begin(), b.end())); ObjP o = f.from_stream(is); std::string ob = o->obs(); if (obs_ok) c.ok("golden-image-readable-stream", ob == g[i].obs, "baseline image now reads as " + ob.substr(0, 300) + " VS recorded " + g[i].obs.substr(0, 300)); }
+    try { Sched s(0, 11); std::istringstream is(std::string(b.begin(), b.end())); ObjP o = f.from_stream(is); std::string ob = o->obs(); if (obs_ok) c.ok("golden-image-readable-stream", strip_excepted_fields(ex, g[i].label, ob) == strip_excepted_fields(ex, g[i].label, g[i].obs), "baseline image now reads as " + ob.substr(0, 300) + " VS recorded " + g[i].obs.substr(0, 300)); }
     catch (const std::exception& e) { c.fail("golden-image-readable-stream", std::string("baseline image rejected: ") + e.what()); }
     if (asan_errors() != a0) c.fail("asan", "AddressSanitizer report while reading a baseline image");
     rep.flush_ctx_fails(c.fails, sc, g[i].label); ++readable;
